@@ -160,7 +160,7 @@ def pt_stream(pen):
 
 
 # ---------------------------------------------------------------- setup
-CHUNK = 8
+CHUNK = 6
 REQUIRED_MONITORS = [
     "SegmentToPointPen", "PointToSegmentPen", "PointToSegmentPen._flushContour", "GuessSmoothPointPen",
     "RecordingPen", "RecordingPointPen", "TransformPen", "TransformPointPen", "ReverseContourPointPen",
@@ -964,8 +964,13 @@ def run_chain(ctx, specs, rec_raw, gs_raw, mode, label=None, point_input=None, r
     tol = tol_for(inter + [G], exact) * (1 if exact else 64)
     start = all(s["k"] in ("rev", "flt", "tf", "rnd") for s in specs)
     dec = any(s["k"] in ("dec",) or any(x["k"] == "pdec" for x in s.get("inner", [])) for s in specs)
+    # Rounding can make distinct points coincide; whether "lineTo(start); closePath" then denotes one point or two
+    # depends on where the chain converts between the segment and the point protocol, so the point-preserving
+    # level is only asserted per adapter (on its real streams) for such chains, and geometry end to end.
+    kinds_all = [s["k"] for s in specs] + [x["k"] for s in specs for x in s.get("inner", [])]
+    lv = (1,) if ("pt" in kinds_all and ("rnd" in kinds_all or "prnd" in kinds_all)) else (1, 2)
     judge_rec(ctx, "chain-e2e" if len(specs) > 1 and not label else "e2e:" + (label or nodes[0].label), "e2e", E, G, tol,
-              levels=(1, 2), start=start, src=None if dec else src, witness=witness)
+              levels=lv, start=start, src=None if dec else src, witness=witness)
     if len(specs) > 1:
         ctx.nontrivial("%s|%s" % (name, feats))
     return out.value
@@ -1234,11 +1239,13 @@ FAMILIES = {}
 
 
 def cases(tier, seed):
+    global CHUNK
     T = tier == "thorough"
+    CHUNK = 20 if T else 6       # worker start-up (imports without .pyc + monitor attachment) costs ~2 s
     plan = [  # family, batches quick, batches thorough, sequences per batch
-        ("segpoint", 10, 60, 200), ("transform", 8, 50, 200), ("reverse", 12, 70, 200), ("round", 6, 40, 200),
-        ("filter", 10, 60, 150), ("pointnative", 8, 50, 150), ("record", 6, 40, 120), ("chain", 16, 120, 120),
-        ("ttglyph", 14, 90, 150), ("t2", 10, 70, 120), ("measure", 10, 60, 150), ("svg", 8, 50, 150), ("algebra", 4, 24, 400),
+        ("segpoint", 8, 40, 200), ("transform", 6, 32, 200), ("reverse", 8, 48, 200), ("round", 5, 28, 200),
+        ("filter", 8, 40, 150), ("pointnative", 6, 32, 150), ("record", 4, 20, 120), ("chain", 12, 80, 120),
+        ("ttglyph", 10, 56, 150), ("t2", 8, 48, 120), ("measure", 8, 40, 150), ("svg", 6, 32, 150), ("algebra", 3, 12, 400),
     ]
     out = []
     for fam, q, t, n in plan:
